@@ -65,6 +65,7 @@ func srcCase(r *vlib.Rng, tag string) string {
 	}
 	return tag
 }
+
 var classWords = []string{"a", "b", "c", "A", "foo", "foo-bar", "x1", "bar"}
 var seps = []string{" ", " ", " ", "  ", "\t", "\n", " \f"}
 var ids = []string{"a", "b", "A", "x1", "main", "foo"}
@@ -408,9 +409,10 @@ func kindsOf(v selector.VerifSel, into map[string]bool) {
 // ---------------------------------------------------------------- selector text generator
 
 type sgen struct {
-	r       *vlib.Rng
-	mal     bool     // boundary stream: odd spellings
-	present []string // element names occurring in the document the selectors are run against
+	r        *vlib.Rng
+	mal      bool     // boundary stream: odd spellings
+	present  []string // element names occurring in the document the selectors are run against
+	hasDepth int      // number of enclosing :has / :haschild being generated
 }
 
 func (g *sgen) ws() string {
@@ -550,7 +552,18 @@ func (g *sgen) pseudo(depth int) string {
 			return ":empty"
 		}
 		name := vlib.Pick(r, []string{"not", "not", "is", "has", "has", "haschild"})
-		return ":" + name + "(" + g.ws() + g.group(depth-1, false) + g.ws() + ")"
+		isHas := strings.HasPrefix(name, "has")
+		if isHas && g.hasDepth > 0 && !r.Chance(1, 4) { // :has(:has(:has())) with combinators costs nodes^depth in the model: keep it rare
+			name, isHas = vlib.Pick(r, []string{"not", "is"}), false
+		}
+		if isHas {
+			g.hasDepth++
+		}
+		arg := g.group(depth-1, false)
+		if isHas {
+			g.hasDepth--
+		}
+		return ":" + name + "(" + g.ws() + arg + g.ws() + ")"
 	}
 }
 
@@ -617,7 +630,6 @@ func (g *sgen) group(depth int, top bool) string {
 	}
 	return strings.Join(parts, g.ws()+","+g.ws())
 }
-
 
 // ---------------------------------------------------------------- guided selectors: built from an element of the tree
 
